@@ -110,7 +110,7 @@ def run_shard(spec, tier, seed):
                     'ts': r.choice([0b0111, 0b0111, r.randrange(1, 16)]),
                     'order': r.choice(['proposal', 'proposal', 'reversed', 'shuffled']),
                     'max_late': r.random() < 0.25, 'user_data': r.random() < 0.25,
-                    'retune_ts': r.random() < 0.25}
+                    'retune_ts': r.random() < 0.25, 'late_ctx': r.random() < 0.2}
             case.update(reply)
             run_case(res, case)
     return res
@@ -201,6 +201,21 @@ def run_case(res, case):
 
 def judge(res, case, ae, configured, Stub, max_len, local_title, remote_title):
     from pynetdicom2 import asceprovider, exceptions, pdu as P
+    if case.get('late_ctx') and len(configured) + 3 <= 128:
+        # the entity has already requested an association once; further contexts are then added
+        # through the documented low-level call (as a C-GET user does for its storage contexts)
+        Stub.preload = [lambda stub: P.AAssociateRjPDU(1, 1, 1)]
+        try:
+            with ae.request_association({'aet': remote_title, 'address': 'peer.example', 'port': 11112}):
+                pass
+        except exceptions.NetDICOMError:
+            pass
+        late = [c for c in POOL[190:193] if c not in [x for _, x in configured]]
+        ae.update_context_def_list(late)
+        for c in late:
+            TS_OF.setdefault((id(ae), c), []).append(sorted(str(t) for t in ae.supported_ts))
+        configured = configured + [('ctx', c) for c in late]
+        res.count('sim.contexts-added-after-first-request')
     classes = [c for _, c in configured]
     distinct_classes = list(dict.fromkeys(classes))
     where = 'config %s (%d classes, %d distinct)' % (case['calls'], len(classes), len(distinct_classes))
